@@ -180,6 +180,14 @@ def run(ctx):
             n += 1
             rp = ctx.save_replay("isa_float_%d.ndjson" % n, json.dumps({k2: v for k2, v in ev.items() if k2 != "_class"}) + "\n")
             ctx.violation("C11: %s compiled for %s gives other results than the float reference" % (ev.get("op"), p), rp)
+    # multi-instruction programs on the fallback rules of reduced flag sets (register sharing between operands)
+    from . import c01
+    sl = c01.systematic_plan(ops, True)
+    ctx.cov["systematic_programs"] = len(sl)
+    ptr = c01.run_progs(ctx, sl, ["sse@%d" % (1 | B64), "sse@%d" % (1 | 4 | B64), "mmx@%d" % (1 | 2 | B64)] +
+                        ([] if quick else ["sse@%d" % (f | B64) for f in (3, 9, 13, 17, 25)] + ["mmx@%d" % (f | B64) for f in (19, 35, 51)]),
+                        "c11prog")
+    c01.validate_progs(ctx, ptr, "c11prog", "C11")
     ctx.cov["exhaustive"] = False
     ctx.cov["rule"] = ("every flag subset of sse (16), avx (4), mmx (8) + frame-pointer / short-jump variants x every "
                        "integer opcode {array, parameter, constant} x x1/x2/x4 and every float/double opcode: all listings "
